@@ -28,6 +28,7 @@ package main
 //             argument tuples x the four call shapes
 //   named, empty, cbconc: see c11_ext.go
 //   selector, slotarg: see c11_r4.go
+//   ptrarg, cbvar, deepstore: see c11_r5.go
 //
 // Outside the statement (kept out of the generator's domain or accepted both
 // ways; each place is marked UNSPECIFIED):
@@ -52,6 +53,11 @@ package main
 //   * the script value of a call of a function without results
 //   * whether a receiver mutation made by a pointer-receiver method reached
 //     through a NON-pointer struct value is visible afterwards
+//   * `&x` arguments (c11_r5.go): for a pointee type other than interface{} a
+//     refusal of the call; the dynamic type x has after Go stored a value of
+//     another numeric/string type; addresses of non-variables, pointers taken
+//     earlier, a spread list written behind the last parameter
+//   * whether surplus results of a callback are an error or dropped
 
 import (
 	"context"
@@ -1639,6 +1645,12 @@ func c11PhaseRoundtrip(c *wk.Case) {
 			gi = g.Interface()
 		}
 		for _, rt := range c11Routes {
+			if skip := c11RouteSkip[rt.name]; skip != nil {
+				if why := skip(reflect.ValueOf(gi)); why != "" {
+					c.Excluded(why)
+					continue
+				}
+			}
 			e.Define("g", gi)
 			c.Begin(rt.src)
 			o := ank.Exec(e, rt.src)
@@ -2415,24 +2427,29 @@ func init() {
 		Plan: func(tier string) fw.Plan {
 			nCalls, nMember, nCb, rtRounds := 1000, 150, 300, 2
 			nSel, nSlot := 10, 200
+			nPtr, nCbv, nDeep := c11r5Dims, 2, 60
 			// the -race flavour of cbconc costs a second build of the worker: thorough tier only
 			nNamed, nConc, nConcRace, namedChunk := len(c11NamedTypes), 3*len(c11ConcVariants), 0, 1
 			if tier == "thorough" {
 				nCalls, nMember, nCb, rtRounds = 40000, 6000, 15000, 20
 				nSel, nSlot = 300, 5000
+				nPtr, nCbv, nDeep = 40*c11r5Dims, 100, 3000
 				nNamed, nConc, nConcRace, namedChunk = 25*len(c11NamedTypes), 60*len(c11ConcVariants), 5*len(c11ConcVariants), 5
 			}
 			plan := fw.Plan{
 				Level: "exploration",
 				Rule: "Go functions are manufactured with reflect.MakeFunc over a pool of " + strconv.Itoa(len(c11Types)) + " parameter/result types; their body records every invocation. " +
 					"conv: every (source value, target type) cell of " + strconv.Itoa(len(c11Srcs)) + " script/Go source values x the type pool, under 11 single-varying-argument call forms covering the four call shapes (complete enumeration, sources by name and written inline). " +
-					"calls: PRNG signatures (1-5 params, 0-3 results, 40% variadic) x PRNG argument tuples x plain/spread calls, 25 calls per case. roundtrip: PRNG values of every pool type x 13 routes. " +
+					"calls: PRNG signatures (1-5 params, 0-3 results, 40% variadic) x PRNG argument tuples x plain/spread calls, 25 calls per case. roundtrip: PRNG values of every pool type x " + strconv.Itoa(len(c11Routes)) + " routes (read, containers, identity functions, script functions, assignment, for-in over a map and over a list holding the value). " +
 					"member: PRNG struct contents; every exported field read through 6 holders, written through pointers, 10 methods (value/pointer receiver, promoted, variadic, spread). callback: 14 func types x 5 result modes. " +
 					"named: " + strconv.Itoa(len(c11NamedTypes)) + " travellers (named types of every basic kind with value- and pointer-receiver methods, json.Number, time.Duration, unnamed controls) x 21 Go locations (fields behind pointers, typed slice/array elements, map values, interface slots, pointees) x " + strconv.Itoa(len(c11Hops)) + " binding hops x every sink (read back, Go interface{}/typed/variadic parameter, Go container, value/pointer-receiver method), complete per case with PRNG values. " +
 					"empty: " + strconv.Itoa(len(c11EmptySrcs)) + " empty/nil container sources (script and Go, nested one level) x every field type of C11Doc x parameter / second parameter / variadic element / spread / method parameter / field write / callback result (complete). " +
 					"cbconc: one adapted callback invoked from 4-12 goroutines x 400-900 calls each with pairwise distinct arguments, 8 callback types; each invocation compares the echo with what it passed (thorough tier: the same cases once more in a -race build, phase cbconc-race). " +
 					"selector: " + strconv.Itoa(len(c11HidTypes)) + " struct types whose methods (own and promoted, value and pointer receiver, variadic, several results) have the name of a field promoted from a deeper embedded struct, and one whose field hides a promoted method, x 14 holders (pointer, value, in list / map / typed slice, field behind a pointer and of a value, Go result, assigned name) x call / call through a method value / bare name / explicit-path field reads and a write; fields and a method promoted through an embedded POINTER read, written and called through 21 holders of the outer struct, addressable or not (complete per case, PRNG contents). " +
 					"slotarg: per case 44 slot operands (elements of script lists, typed Go slices, nested lists, arrays and slices behind a pointer, fields behind a pointer / of a struct in a slice, pointees, map values; scalar, string, struct, slice, map, pointer and interface content, nil included) each passed as argument in a PRNG call (fixed / variadic x plain / spread, functions and two methods, typed and interface{} parameters and tails, 1/6 deferred) in which a LATER argument stores into the slot (script closure, inline script function, Go host function, ++ / +=, the spread operand itself) - reads before the store must supply the old value, reads after it the new one; 1/6 of the calls have no store. " +
+					"ptrarg: calls with `&x` arguments (the address of a script variable): 9 callee kinds (manufactured function, the same through a variable, four methods with pointer parameters through a pointer holder and a value holder, a method value, a function with a variadic tail of pointers) x plain / spread at the last parameter / spread over several parameters x variable at top level / captured by a closure / local to a function x &x, &(x), (&x) - every combination once per " + strconv.Itoa(c11r5Dims) + " cases, 4 calls per case with PRNG signatures (1-3 pointer parameters among ordinary ones, " + strconv.Itoa(len(c11r5Pointees)) + " pointee types), PRNG variable contents, stored values and ordinary arguments; the Go side records the pointee it meets, stores a different value through the pointer, and the script reads the variable after the call. " +
+					"cbvar: " + strconv.Itoa(len(c11r5CbTypes)) + " variadic func types x script function with one parameter for the tail / variadic script function x 0-3 tail values Go passes, plus callbacks returning more values than declared (complete per case, PRNG values). " +
+					"deepstore: a Go struct bound by pointer (nested structs held by value, arrays of arrays, arrays and typed slices of structs, pointers, a map of pointers; PRNG contents) reached through 4 holders; 40 stores per case (=, +=, ++) at PRNG paths of 1-7 steps down to a string / int64 / int / float64 / bool leaf, each compared with the same store made by reflect on a twin of the root (the whole structure is compared, and the value read back). " +
 					"An evaluation is non-trivial when the statement decides the case (conversion exists for all arguments, or none exists for one); distinct = distinct (Go signature, source text, argument values).",
 				Assumptions: []string{"reflect.Type.AssignableTo/ConvertibleTo and reflect.Value.Convert are 'Go's own conversion'",
 					"string->byte/rune parameters, pointer->other-pointer conversions, arrays, over-long spread lists, VM-protocol-typed Go functions are outside the statement and not judged",
@@ -2441,6 +2458,10 @@ func init() {
 					"cbconc judges values only: whether a defective adapter shows depends on the schedule, a correct one is accepted under every schedule; the script function touches no shared script state",
 					"slotarg relies on operands being evaluated left to right (property C07): the argument an expression supplies is its value at that moment; whether a script store took place is read back from the Go slot (inconclusive otherwise)",
 					"selector: which member a name denotes follows Go's selector rule (shallowest depth); assignments to a name that denotes a method, direct fields of a struct not reached through a pointer, and WHEN the receiver of a value-receiver method value is copied are not judged",
+					"ptrarg: `&x` supplies the address of the variable x, so a value the Go function stores through it is what the script reads from x afterwards, in every call shape; for a pointee type other than interface{} (the script-side type of &x is *interface{}; pointer -> other pointer is outside the statement) a refusal with zero invocations is accepted too, an invocation must meet Go's conversion of x's value as pointee; whether x then has the stored value's type or the stored value converted back to its former numeric/string type is not judged; addresses of non-variables (&a[0], &m.v), pointers taken earlier (p = &x; f(p)), &x inside a spread list, go f(&x) are not generated",
+					"deepstore: every generated step is one Go can assign through (field of an addressable struct, element of an addressable array or of a slice, pointer, pointer-valued map entry); a leaf of type int stored from an int64 needs a conversion: an error with the Go value unchanged is accepted",
+					"cbvar: a script function with one parameter in the tail position receives the tail as one list, a variadic script function the values themselves; whether surplus results of a callback are an error or dropped is not judged",
+					"kept out of the domain until /repo is repaired or the behaviour is decided (constants c11PendingFix_* in c11_r5.go, reported in C11-r5-genuine.md): `defer f(&x)` (the store is lost), non-nil pointers read back by a for-in loop over a list (the loop binds the pointee), a variadic script function as callback of a variadic func type (the tail arrives as one list)",
 					"kept out of the domain until /repo is repaired (constants c11PendingFix_* in c11_r4.go, reported in C11-r4-genuine.md): a pointer-receiver method that hides a promoted field called on a struct VALUE; a nil of a non-empty interface type read from an addressable typed slot and passed to an interface-typed parameter it is assignable to",
 					"kept out of the domain until /repo is repaired (constants c11PendingFix_* in c11_ext.go, reported in C11-genuine.md): pointer-receiver methods of non-struct named types on non-pointer values, a spread list that has to fill fixed parameters of a variadic function, array-typed parameters, fields promoted through a nil embedded pointer"},
 				Phases: []fw.Phase{
@@ -2455,6 +2476,9 @@ func init() {
 					{Name: "cbconc", Cases: nConc, Chunk: 4, TimeoutS: 900},
 					{Name: "selector", Cases: nSel, Chunk: 2, TimeoutS: 600},
 					{Name: "slotarg", Cases: nSlot, Chunk: 25, TimeoutS: 900},
+					{Name: "ptrarg", Cases: nPtr, Chunk: 27, TimeoutS: 900, MemMB: 3072},
+					{Name: "cbvar", Cases: nCbv, Chunk: 25, TimeoutS: 300},
+					{Name: "deepstore", Cases: nDeep, Chunk: 30, TimeoutS: 600},
 				},
 			}
 			if nConcRace > 0 {
@@ -2486,6 +2510,12 @@ func init() {
 				c11PhaseSelector(c)
 			case "slotarg":
 				c11PhaseSlotArg(c)
+			case "ptrarg":
+				c11PhasePtrArg(c)
+			case "cbvar":
+				c11PhaseCbVar(c)
+			case "deepstore":
+				c11PhaseDeepStore(c)
 			}
 		},
 	})
